@@ -4,6 +4,16 @@ Open Scope Z_scope.
 
 (** [idx_str] (strconv.Itoa, "i" in front for init containers) is in Model/GpuMaterialise.v *)
 
+(** The reservation service's part of one bind (Binder.reserveGPUs: ReserveGpuDevice per selected GPU group, each ending in
+    updatePodGPUGroup's label patch) on an API server where the pod and the groups' reservation pods exist. *)
+Record label_obs := {
+  l_groups : list string;     (* input: Spec.SelectedGPUGroups of the BindRequest the real scheduler cache created *)
+  l_ok : bool;                (* observed: every ReserveGpuDevice returned nil *)
+  l_labels : labels;          (* observed: the labels of the pod as stored afterwards (sorted by key) *)
+  l_reread : list string      (* observed: GPUGroups of pod_info.NewTaskInfo on the stored pod (sorted): what the scheduler's
+                                 next snapshot charges the pod to *)
+}.
+
 (** One PreBind of the real binder gpusharing plugin on the admitted (mutated) pod. *)
 Record round := {
   r_cdi : bool;               (* input: the plugin renders CDI device names *)
@@ -17,14 +27,18 @@ Record round := {
   r_close : bool;             (* observed: ... to within half a hundredth of it *)
   r_ok : bool;                (* observed: PreBind returned nil *)
   r_maps : cmstore;           (* observed: the namespace's ConfigMaps afterwards (sorted by name, data by key) *)
-  r_env : list (ctype * nat * envval * envval)
+  r_env : list (ctype * nat * envval * envval);
                               (* observed: NVIDIA_VISIBLE_DEVICES and GPU_PORTION every container starts with,
                                  resolved by the harness from the real pod and the real ConfigMaps *)
+  r_lab : label_obs    (* the label patches of the same bind *)
 }.
 Record bind_obs := {
   b_ref : option (ctype * nat * string);  (* observed: GetFractionContainerRef: type, index, ref.Container.Name *)
   b_pre : cmstore;                        (* input: ConfigMaps present before the first PreBind (owned by the pod) *)
   b_rounds : list round;                  (* a second round = a bind retry with another grant *)
+  b_sched_devices : Z;                    (* observed: ResReq.GetNumOfGpuDevices of NewTaskInfo on the pod *)
+  b_ndev : ndev;                          (* observed: resources.GetNumGPUFractionDevices on the pod *)
+  b_multi : option bool                   (* observed: resources.IsMultiFraction on the pod (None = error) *)
 }.
 
 Record case := {
@@ -131,8 +145,35 @@ Fixpoint rounds_agree (p : gpod) (s : cmstore) (rs : list round) : bool :=
       && list_eqb env_entry_eqb (env_of_all (r_maps r) p) (r_env r)
       && rounds_agree p (r_maps r) rest
   end.
-Definition bind_agrees (p : gpod) (b : bind_obs) : bool :=
-  ref_eqb (ref_of p) (b_ref b) && rounds_agree p (b_pre b) (b_rounds b).
+(** lists of strings compared as sets without repetition (Go map iteration order / sorted dumps) *)
+Definition str_mem (x : string) (l : list string) : bool := existsb (String.eqb x) l.
+Definition strs_same (a b : list string) : bool :=
+  Nat.eqb (List.length a) (List.length b) && forallb (fun x => str_mem x b) a && forallb (fun x => str_mem x a) b.
+Definition ndev_eqb (a b : ndev) : bool :=
+  match a, b with
+  | NdOk x, NdOk y => x =? y
+  | NdNotFound, NdNotFound | NdParseError, NdParseError => true
+  | _, _ => false
+  end.
+Definition obool_eqb (a b : option bool) : bool :=
+  match a, b with
+  | Some x, Some y => Bool.eqb x y
+  | None, None => true
+  | _, _ => false
+  end.
+(** the model's label patches against the stored labels, the model's GetGpuGroups against NewTaskInfo's groups *)
+Definition labels_agree (p : gpod) (l : label_obs) : bool :=
+  (match labels_after_binding (l_groups l) p with
+   | Some ls => l_ok l && data_eqb ls (l_labels l)
+   | None => negb (l_ok l)
+   end)
+  && strs_same (groups_of_labels (l_labels l)) (l_reread l).
+Definition devices_agree (pf : string -> pfres) (p : gpod) (b : bind_obs) : bool :=
+  ndev_eqb (binder_num_devices p) (b_ndev b) && obool_eqb (is_multi_fraction p) (b_multi b)
+  && (g_count (scheduler_interpret pf p) =? b_sched_devices b)
+  && forallb (fun r => labels_agree p (r_lab r)) (b_rounds b).
+Definition bind_agrees (pf : string -> pfres) (p : gpod) (b : bind_obs) : bool :=
+  ref_eqb (ref_of p) (b_ref b) && rounds_agree p (b_pre b) (b_rounds b) && devices_agree pf p b.
 
 Definition nonempty {A} (l : list A) : bool := match l with [] => false | _ => true end.
 (** a pod that carries a GPU-sharing annotation and that both admission webhooks let through *)
@@ -152,8 +193,8 @@ Definition model_agrees (k : case) : bool :=
   && Bool.eqb (validate_gpu_requests pf (k_mut k)) (k_bvalid k)
   (* GetFractionContainerRef and PreBind on the mutated pod (and on the unmutated one) *)
   && Bool.eqb (isSome (k_bind k)) (admitted_sharing k)
-  && match k_bind k with Some b => bind_agrees (k_mut k) b | None => true end
-  && match k_legacy k with Some (p, b) => bind_agrees p b | None => true end.
+  && match k_bind k with Some b => bind_agrees pf (k_mut k) b | None => true end
+  && match k_legacy k with Some (p, b) => bind_agrees pf p b | None => true end.
 
 (** The property itself, evaluated on what the real code returned. *)
 (** the pod gets past admission: on creation or by an update of an admitted pod *)
@@ -211,6 +252,24 @@ Definition selection_ok (k : case) : bool :=
     end
   else true.
 
+(** ** the number of devices, on the real outputs only: the binder reads the device count the scheduler interpreted; binding
+    leaves one GPU-group label per selected group; the groups the scheduler re-reads from the bound pod are the selected ones *)
+Definition labels_ok (l : label_obs) : bool :=
+  l_ok l
+  && Nat.eqb (List.length (l_labels l)) (List.length (l_groups l))
+  && strs_same (l_reread l) (l_groups l).
+Definition devices_ok (k : case) : bool :=
+  if admitted_sharing k then
+    match k_bind k with
+    | Some b =>
+        ndev_eqb (b_ndev b) (NdOk (g_count (k_req k)))
+        && (b_sched_devices b =? g_count (k_req k))
+        && obool_eqb (b_multi b) (Some (1 <? g_count (k_req k)))
+        && forallb (fun r => labels_ok (r_lab r)) (b_rounds b)
+    | None => false
+    end
+  else true.
+
 Definition monitor_ok (k : case) : bool :=
   let pf := fun _ : string => k_pf k in
   let p := k_pod k in
@@ -226,7 +285,9 @@ Definition monitor_ok (k : case) : bool :=
   (* what admission lets through, the binder's validation accepts *)
   && (if admitted k then k_bvalid k else true)
   (* per-container selection: selected, wired and materialised identically *)
-  && selection_ok k.
+  && selection_ok k
+  (* number of devices: read by the binder as interpreted by the scheduler, one label per selected group, read back *)
+  && devices_ok k.
 
 (** ** the portion the selected container is told is the portion the scheduler interpreted and booked.
     For a fraction request that is the request's own fraction (bit for bit what NewTaskInfo read); for a gpu-memory
